@@ -69,6 +69,23 @@ func genSDF(t *rapid.T, ranges bool) string {
 	return fmt.Sprintf("permit %s %s from %s%s to assigned", dir, proto, remote, port)
 }
 
+// sdfKey canonicalises a flow description by what it denotes, so that two texts with the
+// same meaning (e.g. no filter and "ip from any to assigned") count as the same match key.
+func sdfKey(sdf string) string {
+	if sdf == "" {
+		return "any"
+	}
+	f, err := model.ParseFlow(sdf)
+	if err != nil {
+		return sdf
+	}
+	pf, _ := f.Orient("core", 1)
+	if pf.SrcLen == 0 && pf.SrcLo == 0 && pf.SrcHi == 65535 && pf.ProtoAny {
+		return "any"
+	}
+	return fmt.Sprintf("%d/%d:%d-%d:%v:%d", pf.SrcNet&model.MaskOf(pf.SrcLen), pf.SrcLen, pf.SrcLo, pf.SrcHi, pf.ProtoAny, pf.Proto)
+}
+
 // sessCtx carries the per-session constants a generator needs to keep keys distinct.
 type sessCtx struct {
 	idx    int
@@ -117,15 +134,15 @@ func genRules(t *rapid.T, k ruleKnobs, c sessCtx) (pdrs []model.PDR, fars []mode
 		sdf := ""
 		if k.sdf && (i > 0 || rapid.Bool().Draw(t, "sdf0")) {
 			sdf = genSDF(t, k.ranges)
-			if usedSDF[sdf] {
+			if usedSDF[sdfKey(sdf)] {
 				sdf = ""
 			}
 		}
-		if usedSDF[sdf] {
+		if usedSDF[sdfKey(sdf)] {
 			// keep match keys pairwise distinct inside the session
 			continue
 		}
-		usedSDF[sdf] = true
+		usedSDF[sdfKey(sdf)] = true
 		prec := uint32(rapid.IntRange(1, 255).Draw(t, "prec"))
 		if k.precSpread {
 			prec = rapid.OneOf(rapid.Uint32Range(0, 65535), rapid.SampledFrom([]uint32{0, 1, 65534, 65535})).Draw(t, "precw")
